@@ -46,7 +46,7 @@ def main():
             except queue.Empty: return
             t0 = time.time()
             patch = os.path.join(ROOT, "seeded", seed, "patch.diff")
-            r = subprocess.run([os.path.join(ROOT, "tools", "seed_iso.sh"), "m" + "abcdefgh"[slot], patch, prop, tier] + extra, stdout=subprocess.PIPE, stderr=subprocess.STDOUT, text=True,
+            r = subprocess.run([os.path.join(ROOT, "tools", "seed_iso.sh"), "m" + os.environ.get("ISO_SLOT_BASE", "abcdefgh")[slot], patch, prop, tier] + extra, stdout=subprocess.PIPE, stderr=subprocess.STDOUT, text=True,
                                env=dict(os.environ, VERIF_JOBS=str(jobs)))
             lines = [l for l in r.stdout.splitlines() if not l.startswith("WARNING conda")]
             verdict = {0: "missed", 1: "caught", 2: "inconclusive"}.get(r.returncode, "error")
